@@ -143,6 +143,7 @@ type WalletSite struct {
 	Raw      wstorage.WalletDB
 	Mnemonic string
 	Default  string
+	Dead     bool // the wallet process was killed mid-operation; only a restore from the mnemonic follows
 	// blinding factors and output secrets this wallet can derive: B_ -> (secret id, r hex, keyset, counter)
 }
 
@@ -175,6 +176,7 @@ type WW struct {
 	DleqLog  []map[string]any // NUT-12 facts of tokens handed out and proofs stored (C10)
 	dleqSeen map[string]bool
 	Sched   Sched
+	crashed chan struct{} // closed when the running operation's wallet process has been killed
 	mu      sync.Mutex
 	Reqs    []ReqRec
 	seq     int
@@ -643,6 +645,9 @@ func (ww *WW) guard(fn func() error) (err error, pan bool, msg string) {
 	}()
 	select {
 	case <-done:
+	case <-ww.crashed:
+		// the wallet process was killed inside fn (a nil channel never fires)
+		return fmt.Errorf("wallet process killed"), false, ""
 	case <-time.After(ww.OpTimeout):
 		pan, msg = true, "timeout (operation hung)"
 	}
